@@ -67,8 +67,14 @@ def merge(prog, run, rule):
             ob(prole, None, f"MSF arguments not fully recognised: {seqdom.canon(terms[0])} / {seqdom.canon(terms[1])}", node)
             continue
         P_ = seqdom.P
-        cands = {"own": seqdom.canon(seqdom.listed(P_.s(lv))), "first": seqdom.canon(seqdom.listed(0))}
         got = [seqdom.canon(t) for t in terms]
+        # the setup index is the variable of one of the enclosing loops (the call may sit in an inner loop / comprehension over the modes)
+        for cand_lv in [l_[1] for l_ in reversed(loops)]:
+            cands = {"own": seqdom.canon(seqdom.listed(P_.s(cand_lv))), "first": seqdom.canon(seqdom.listed(0))}
+            if sorted(got) == sorted(cands.values()):
+                lv = cand_lv
+                break
+        cands = {"own": seqdom.canon(seqdom.listed(P_.s(lv))), "first": seqdom.canon(seqdom.listed(0))}
         okp = sorted(got) == sorted(cands.values())
         ob(prole, okp, f"MSF on `{got[0]}` and `{got[1]}`" + ("" if okp else f" - required: `{cands['own']}` with `{cands['first']}` (same listed order, each setup's own reference list)").replace(lv, "i"), node,
            w=(got[0] + " | " + got[1]).replace(lv, "i")[:120])
